@@ -86,7 +86,7 @@ pub fn run(o: &Opts) {
                     }
                 }
                 ev["rep"] = json!(rep);
-                if mode == "cert" {
+                if mode == "cert" || mode == "light" {
                     ev["c"] = json!(enc.verif_intermediate_symbols());
                 }
             }
